@@ -27,11 +27,15 @@ type Case struct {
 	Callers int    // concurrent callers (1 = sequential)
 	API     string // "single" (SinglePipelineSimulate) or "fitness" (Fitness_default)
 	Ticks   int    // Fitness_default interactions
+	DataType string
 }
 
 func genCase(t *rapid.T) Case {
 	var c Case
-	c.Spec = gen.HandshakeMachine(t, gen.HSOptions{MaxProcs: 6, MaxPad: 2})
+	c.Spec = gen.HandshakeMachine(t, gen.HSOptions{MaxProcs: 6, MaxPad: 2, Replicate: true})
+	// number type the outputs are printed in: valid ones, ones of the wrong width and unknown ones
+	// (a simulation that ends with an error has finished too and must release what it started)
+	c.DataType = rapid.SampledFrom([]string{"unsigned", "unsigned", "float32", "float16", "fps16f4", "nosuchtype", "flpe4f4"}).Draw(t, "dtype")
 	for i := 0; i < c.Spec.Inputs; i++ {
 		c.Inputs = append(c.Inputs, rapid.Uint8().Draw(t, "in"))
 	}
@@ -109,7 +113,20 @@ func prop(c Case) pbt.Outcome {
 			exp.Add("absolute:1:set:o0:1")
 			_, err = bm.Fitness_default(inb, exp, uint64(c.Ticks))
 		default:
-			_, err = bm.SinglePipelineSimulate("unsigned", in, nil)
+			dt := c.DataType
+			if dt == "" {
+				dt = "unsigned"
+			}
+			func() {
+				// a number type of the wrong width makes the exporter panic (index out of range): the
+				// caller sees a panic instead of an error, the resources must be released all the same
+				defer func() {
+					if r := recover(); r != nil {
+						err = fmt.Errorf("panic: %v", r)
+					}
+				}()
+				_, err = bm.SinglePipelineSimulate(dt, in, nil)
+			}()
 		}
 		if err != nil {
 			errMu.Lock()
@@ -143,9 +160,6 @@ func prop(c Case) pbt.Outcome {
 	}
 	g0 := settle()
 	batch(c.First)
-	if simErr != nil {
-		return pbt.Outcome{Excluded: "sim-error"}
-	}
 	g1 := settle()
 	c1 := creators()
 	batch(c.Batch)
@@ -153,6 +167,16 @@ func prop(c Case) pbt.Outcome {
 	batch(c.Batch)
 	g3 := settle()
 	c3 := creators()
+	if simErr != nil {
+		if strings.HasPrefix(simErr.Error(), "panic") {
+			c.API += "+panic"
+		} else {
+			c.API += "+error-return"
+		}
+	}
+	if c.Spec.ShareDomains {
+		c.API += "+shared-domain"
+	}
 	labels := []string{"api=" + c.API, fmt.Sprintf("callers=%d", c.Callers), fmt.Sprintf("procs=%d", len(c.Spec.Procs))}
 	nt := c.Batch >= 5 && len(c.Spec.Procs) >= 2
 	// goroutines_after - goroutines_before <= c independent of n: two further batches of equal size must
